@@ -614,6 +614,21 @@ func (r *cacheRun) step(w *traceWriter, kind opKind, k int, ttl int64, cost int6
 			if !wasBatch {
 				if !r.forceQueue {
 					r.policyCheck(pol, pre, post, k, sh, desc)
+					// C09, reference budget: the room is recomputed from the entries themselves (not from the
+					// implementation's counters); a reference LRU / LFU / FIFO with room evicts nothing
+					if pol != kioshun.SieveTinyLFU && !wasRes {
+						var refSize, refCost int64
+						for pk, pv := range pre {
+							if r.c.VerifShardIndex(pk) == sh {
+								refSize++
+								refCost += r.costArg(pv)
+							}
+						}
+						refRoom := (inf.Cap == 0 || refSize < inf.Cap) && (inf.CostCap == 0 || refCost+r.costArg(newVal) <= inf.CostCap)
+						if refRoom && removed > 0 {
+							r.viol("C09", fmt.Sprintf("%s evicted %d entries although the shard had room by the entries it holds (%d of %d entries, weight %d+%d of %d): a reference %v keeps them all", desc, removed, refSize, inf.Cap, refCost, r.costArg(newVal), inf.CostCap, pol))
+						}
+					}
 				}
 			}
 		} else {
@@ -1015,6 +1030,11 @@ func (r *cacheRun) policyCheck(pol kioshun.EvictionPolicy, pre, post map[int]int
 		if _, was := pre[k]; !was {
 			survivors = append(survivors, k)
 		}
+	} else if _, was := pre[k]; !was {
+		// LRU / LFU / FIFO make room BEFORE inserting: the victim is chosen among the entries that were there, so
+		// the reference implementation always holds the key just inserted
+		r.viol("C09", fmt.Sprintf("%s succeeded, yet the new key %d is not resident afterwards (victims %v): the policy evicts among the entries present before the insert", desc, k, victims))
+		return
 	}
 	for _, v := range victims {
 		for _, u := range survivors {
